@@ -480,9 +480,10 @@ pub use crate::value::list::c16_api::*;
 // instructions without a schedule point, so a walk that is *not* covered by
 // the list's lock cannot be interleaved with anything. [`ProbeElem`] is an
 // element type whose `Clone` and `PartialEq` — which the list code calls for
-// every element it looks at — are schedule points: between reading the first
-// and the second half of the element any other thread may run (if the lock it
-// needs is free). The two halves of every value ever stored are equal, so a
+// every element it looks at — are schedule points: `clone` stops between
+// reading the first and the second half of the element, `eq` before it reads
+// the element (so between two elements of a comparison), and any other
+// thread may run there (if the lock it needs is free). The two halves of every value ever stored are equal, so a
 // result with different halves is an element that was never in the list.
 //
 // An element access is *stale* if the address lies in a range that was
@@ -625,21 +626,22 @@ impl Clone for ProbeElem {
 impl PartialEq for ProbeElem {
     fn eq(&self, other: &Self) -> bool {
         // `self` is the element of the (first) list; `other` an element of
-        // the second list (`==`) or the value looked for (`contains`)
-        let o = other as *const Self as usize;
-        if !elem_access(o) {
+        // the second list (`==`) or the value looked for (`contains`).
+        // The schedule point comes *before* the element is read: a thread
+        // that runs here runs between the comparison of two elements.
+        let (me, o) =
+            (self as *const Self as usize, other as *const Self as usize);
+        if !elem_access(me) || !elem_access(o) {
             return false;
         }
-        let (a, b) = self.read("elem:eq");
-        if a == Self::POISON && b == Self::POISON {
+        if !sched_elem("elem:eq", me) || !elem_access(o) {
             return false;
         }
-        if !elem_access(o) {
-            return false;
-        }
-        // SAFETY: fields of a live `&other`
-        let (oa, ob) = unsafe {
+        // SAFETY: fields of a live `&self` / `&other` (volatile: see `read`)
+        let (a, b, oa, ob) = unsafe {
             (
+                std::ptr::read_volatile(&self.a),
+                std::ptr::read_volatile(&self.b),
                 std::ptr::read_volatile(&other.a),
                 std::ptr::read_volatile(&other.b),
             )
